@@ -20,10 +20,23 @@
      quantify over all k.  C15_driver_reports: with a context that is never cancelled, the returned
      error is ReadErr = fmt.Errorf("read error: %w", p.lexer.Err()), and the wrapped error is e.
 
-   `lexrun s k fuel = Some _` excludes the lexer model running out of fuel, i.e. NextToken not
-   returning; the theorems hold for every fuel.  (Totality of the lexer model is proved over the pure
-   stream -- C12 -- and therefore over every well-behaved reader -- C14_tokens_total; over readers
-   that fail in the middle it is not proved, see the report.)
+   `lexrun s k fuel = None` would mean that the lexer model ran out of fuel, i.e. NextToken not
+   returning.  It never happens: Lexer/LexerTotalGen.v re-proves the totality of the lexer (C12)
+   over an ABSTRACT stream with a measure that Peek does not increase and that a ReadRune returning
+   a rune decreases; Stream/BufioMeasure.v shows that "window bytes + data bytes still in the
+   script" is such a measure for bufio.Reader in EVERY state over EVERY script (Err / DataErr chunks
+   anywhere, empty reads up to io.ErrNoProgress, data after errors, explicit EOF followed by data);
+   Lexer/LexerTotalBufio.v instantiates.  Hence for every script s, every k and every
+   fuel > length (data_of s) -- the number of data bytes; neither chunks nor empty reads count --
+   `lexrun s k fuel = Some _` (C15_lexrun_total), and Tokenize returns on every reader with exactly
+   one EOF (C15_tokenize_total_any_reader).
+   The theorems come in two forms: the original ones, conditional on `lexrun s k fuel = Some _`
+   (they hold for every fuel), and the `_total` ones at the end, which carry no such hypothesis:
+   C15_error_is_tracked_total, C15_driver_reports_total, C15_driver_returns_read_error_total and
+   C15_parse_reports_read_error (the final form: for every script and every number of NextToken
+   calls, if a Read that was performed returned a non-EOF error e, ParseStatements with a
+   never-cancelled context returns ReadErr wrapping e; the only hypotheses left are C16's progress
+   hypotheses on the abstract statement parser `ps`).
 
    What "returns an error at any point of the stream" means here: a Read call that was actually
    performed returned it (first_read_error, BufioProof's ghost log of Read calls).  An error the
@@ -31,8 +44,8 @@
    EOF at a NUL character without reading further (C15_example_nul_stops_reading). *)
 From Coq Require Import List NArith.
 From DC Require Import Base.Utf8 Base.Stream Base.Item Gen.TokenTable.
-From DC Require Import Lexer.LexerModel Lexer.LexerSim.
-From DC Require Import Stream.Simulation Stream.BufioModel Stream.BufioProof.
+From DC Require Import Lexer.LexerModel Lexer.LexerSim Lexer.LexerTotalGen Lexer.LexerTotalBufio.
+From DC Require Import Stream.Simulation Stream.BufioModel Stream.BufioProof Stream.BufioMeasure.
 From DC Require Driver.DriverModel Driver.DriverProof.
 Import ListNotations.
 
@@ -162,6 +175,131 @@ Theorem C15_driver_read_error_only_if :
 Proof. exact driver_read_error_only_if. Qed.
 Print Assumptions C15_driver_read_error_only_if.
 
+(* ---------- the lexer over bufio is total over EVERY script: no fuel hypothesis ---------- *)
+
+(* totality of the lexer model over an abstract stream with a measure (C12 generalised) *)
+Theorem C15_lexer_total_over_any_measured_stream :
+  forall (St : Type) (o : stream_ops St) (smu : St -> nat),
+    (forall n s, smu (snd (s_peek o n s)) <= smu s) ->
+    (forall s r, fst (s_read_rune o s) = Some r -> smu (snd (s_read_rune o s)) < smu s) ->
+    forall s k fuel, smu s < fuel ->
+      exists items l', run_lexer o k fuel (init_lex o s) = Some (items, l') /\ length items = k /\
+        LexerTotalGen.wf l' /\ LexerTotalGen.mu smu l' <= smu s.
+Proof. exact (@run_lexer_init_total). Qed.
+Print Assumptions C15_lexer_total_over_any_measured_stream.
+
+(* the measure on bufio.Reader states: every state, every script *)
+Theorem C15_bufio_peek_keeps_measure : forall n st, bmu (snd (bufio_peek n st)) = bmu st.
+Proof. exact bufio_peek_mu. Qed.
+Print Assumptions C15_bufio_peek_keeps_measure.
+
+Theorem C15_bufio_read_rune_decreases_measure : forall st r,
+  fst (bufio_read_rune st) = Some r -> bmu (snd (bufio_read_rune st)) < bmu st.
+Proof. exact bufio_read_rune_mu. Qed.
+Print Assumptions C15_bufio_read_rune_decreases_measure.
+
+(* NextToken returns from every lexer state (l.eof -> l.ch = 0) over bufio *)
+Theorem C15_next_token_total : forall fuel (l : @lex bstate),
+  bufio_wf l -> bufio_mu l < fuel ->
+  exists it l', next_token bufio_stream fuel l = Some (it, l') /\ bufio_wf l' /\ bufio_mu l' <= bufio_mu l.
+Proof. exact next_token_bufio_total. Qed.
+Print Assumptions C15_next_token_total.
+
+(* lexer.New(r) + k NextToken calls: for EVERY script and k, every fuel above the number of data bytes *)
+Theorem C15_lexrun_total : forall s k fuel, length (data_of s) < fuel ->
+  exists items lx, lexrun s k fuel = Some (items, lx) /\ length items = k.
+Proof. exact lexrun_total. Qed.
+Print Assumptions C15_lexrun_total.
+
+Theorem C15_lexrun_never_out_of_fuel : forall s k,
+  exists fuel0, forall fuel, fuel0 <= fuel -> lexrun s k fuel <> None.
+Proof. exact lexrun_never_out_of_fuel. Qed.
+Print Assumptions C15_lexrun_never_out_of_fuel.
+
+(* Tokenize over any reader whatsoever: returns, one EOF, last, sticky *)
+Theorem C15_tokenize_total_any_reader : forall s,
+  exists pre e,
+    bufio_tokens s = Some (pre ++ [e]) /\ it_tok e = T_EOF /\
+    Forall (fun i => it_tok i <> T_EOF) pre /\ length (pre ++ [e]) <= length (data_of s) + 1 /\
+    forall k, bufio_next_tokens (length (pre ++ [e]) + k) s = Some ((pre ++ [e]) ++ repeat e k).
+Proof. exact bufio_tokenize_total. Qed.
+Print Assumptions C15_tokenize_total_any_reader.
+
+(* C15_tracked_is_first_read_error without the fuel hypothesis *)
+Theorem C15_tracked_is_first_read_error_total : forall s k fuel, length (data_of s) < fuel ->
+  exists items lx,
+    lexrun s k fuel = Some (items, lx) /\ length items = k /\
+    reachable s (l_src lx) /\
+    diverged (l_src lx) = false /\
+    tracked_err (l_src lx) = first_read_error (l_src lx) /\
+    script_errs s = read_errors (l_src lx) ++ script_errs (script (l_src lx)).
+Proof. exact lexrun_total_tracked. Qed.
+Print Assumptions C15_tracked_is_first_read_error_total.
+
+(* THE property at the lexer, unconditional *)
+Theorem C15_error_is_tracked_total : forall s k fuel, length (data_of s) < fuel ->
+  exists items lx,
+    lexrun s k fuel = Some (items, lx) /\
+    (forall e, first_read_error (l_src lx) = Some e ->
+       tracked_err (l_src lx) = Some e /\ hd_error (script_errs s) = Some e) /\
+    (tracked_err (l_src lx) = None -> read_errors (l_src lx) = []).
+Proof. exact lexrun_total_error_is_tracked. Qed.
+Print Assumptions C15_error_is_tracked_total.
+
+(* C15_driver_reports without the fuel hypothesis *)
+Theorem C15_driver_reports_total :
+  forall (stmt err : Type) (ps : list item -> option stmt * list item * list err)
+         (mk_parallel : stmt -> list stmt -> stmt) (ctx_err : DriverModel.ctx_error)
+         done s k fuel,
+    (forall j, done j = false) ->
+    length (data_of s) < fuel ->
+    exists items lx,
+      lexrun s k fuel = Some (items, lx) /\
+      forall e, first_read_error (l_src lx) = Some e ->
+        tracked_err (l_src lx) = Some e /\
+        forall ts ss er rest,
+          DriverModel.run ps mk_parallel done ctx_err (read_failed_of (l_src lx)) ts =
+            DriverModel.Finished ss er rest ->
+          er = DriverModel.ReadErr /\ rest = [].
+Proof. exact driver_reports_read_error_total. Qed.
+Print Assumptions C15_driver_reports_total.
+
+(* THE property at the driver, unconditional in the reader and the lexer *)
+Theorem C15_driver_returns_read_error_total :
+  forall (stmt err : Type) (ps : list item -> option stmt * list item * list err)
+         (mk_parallel : stmt -> list stmt -> stmt) (ctx_err : DriverModel.ctx_error)
+         done s k fuel,
+    (forall ts, ts <> [] -> length (DriverProof.rem (ps ts)) < length ts) ->
+    DriverProof.rem (ps []) = [] ->
+    (forall j, done j = false) ->
+    length (data_of s) < fuel ->
+    exists items lx,
+      lexrun s k fuel = Some (items, lx) /\
+      forall e, first_read_error (l_src lx) = Some e ->
+        tracked_err (l_src lx) = Some e /\
+        forall ts, exists ss,
+          DriverModel.parse_statements ps mk_parallel done ctx_err (read_failed_of (l_src lx)) ts =
+            Some (ss, DriverModel.ReadErr).
+Proof. exact driver_returns_read_error_total. Qed.
+Print Assumptions C15_driver_returns_read_error_total.
+
+(* ... with the canonical fuel lexfuel s = length (data_of s) + 1, context.Background(), and the
+   token list the lexer produced *)
+Theorem C15_parse_reports_read_error :
+  forall (stmt err : Type) (ps : list item -> option stmt * list item * list err)
+         (mk_parallel : stmt -> list stmt -> stmt) (ctx_err : DriverModel.ctx_error) s k,
+    (forall ts, ts <> [] -> length (DriverProof.rem (ps ts)) < length ts) ->
+    DriverProof.rem (ps []) = [] ->
+    exists items lx,
+      lexrun s k (lexfuel s) = Some (items, lx) /\
+      forall e, first_read_error (l_src lx) = Some e ->
+        tracked_err (l_src lx) = Some e /\
+        exists ss,
+          DriverModel.parse_statements ps mk_parallel DriverModel.never ctx_err
+            (read_failed_of (l_src lx)) (driver_tokens items) = Some (ss, DriverModel.ReadErr).
+Proof. exact parse_reports_read_error. Qed.
+Print Assumptions C15_parse_reports_read_error.
+
 (* ---------- non-vacuity ---------- *)
 Local Open Scope N_scope.
 
@@ -213,3 +351,17 @@ Example C15_example_nul_stops_reading :
   summary (lexrun [Data [49; 0; 32; 50]; Err 7] 4 10%nat) =
     Some ([T_NUMBER; T_EOF; T_EOF; T_EOF], false, None, [], [Err 7]).
 Proof. vm_compute. reflexivity. Qed.
+
+(* the fuel of the _total theorems on a hostile script: empty reads, a transient error inside a token,
+   data together with an error, an explicit EOF followed by data, 150 empty reads (io.ErrNoProgress) *)
+Example C15_example_hostile_script :
+  lexfuel hostile_script = 12%nat /\
+  summary (lexrun hostile_script 3 (lexfuel hostile_script)) =
+    Some ([T_IDENT; T_EOF; T_EOF], true, Some 7, [7],
+          [Data [76; 69; 67; 84; 32]; DataErr [49; 32] 9; Err 0; Data [50]] ++ repeat (Data []) 150 ++ [Data [51]]).
+Proof. vm_compute. split; reflexivity. Qed.
+
+(* the bound is tight up to the constant: one unit less than lexfuel and the model runs out of fuel *)
+Example C15_example_fuel_needed :
+  lexrun [Data [97; 98; 99]] 1 3%nat = None /\ lexrun [Data [97; 98; 99]] 1 (lexfuel [Data [97; 98; 99]]) <> None.
+Proof. vm_compute. split; [reflexivity|discriminate]. Qed.
